@@ -7,15 +7,15 @@
 import GrogModel.Select
 namespace Grog
 
-/-- `AddEdge(from, to)` on a graph with nodes `0 … n-1` (current code: adding an edge that is already
-    present changes nothing). `none` = the error return (self-loop, unknown node). -/
+/-- `AddEdge(from, to)` on a graph with nodes `0 … n-1`: appends to `outEdges[from]` and `inEdges[to]`
+    (adding an edge twice gives two entries; `TestDirectedTargetGraph_AddEdge` pins this).
+    `none` = the error return (self-loop, unknown node). -/
 def addEdge (n : Nat) (es : List Edge) (e : Edge) : Option (List Edge) :=
   if e.1 == e.2 then none
   else if !(e.1 < n && e.2 < n) then none
-  else if es.contains e then some es
   else some (es ++ [e])
 
-/-- a sequence of `AddEdge` calls starting from the empty graph -/
+/-- a sequence of `AddEdge` calls -/
 def addEdges (n : Nat) : List Edge → List Edge → Option (List Edge)
   | es, [] => some es
   | es, e :: rest =>
@@ -23,18 +23,27 @@ def addEdges (n : Nat) : List Edge → List Edge → Option (List Edge)
     | none => none
     | some es' => addEdges n es' rest
 
-/-- `AddEdge` before the fix for duplicate edges: always appends. -/
-def addEdgeOld (n : Nat) (es : List Edge) (e : Edge) : Option (List Edge) :=
-  if e.1 == e.2 then none
-  else if !(e.1 < n && e.2 < n) then none
-  else some (es ++ [e])
-
 /-- bytewise `≤` on strings (what `sort.Strings` uses) -/
 def bytesLe (a b : Bytes) : Bool := !bytesLt b a
 
-/-- `label.PrintSorted`: the label strings, `sort.Strings`, one per line -/
+/-- `slices.Compact`: drop consecutive repetitions -/
+def compact : List Bytes → List Bytes
+  | [] => []
+  | [a] => [a]
+  | a :: b :: t => if a == b then compact (b :: t) else a :: compact (b :: t)
+
+/-- the label strings of a list of nodes -/
+def labelStrings (g : BuildGraph) (idx : List Nat) : List Bytes :=
+  idx.filterMap (fun i => (g.nodes[i]?).map (fun n => n.label.toBytes))
+
+/-- `label.PrintSorted` of the current code: the label strings, `sort.Strings`, `slices.Compact`, one per line -/
 def printSorted (g : BuildGraph) (idx : List Nat) : List Bytes :=
-  (idx.filterMap (fun i => (g.nodes[i]?).map (fun n => n.label.toBytes))).mergeSort bytesLe
+  compact ((labelStrings g idx).mergeSort bytesLe)
+
+/-- `label.PrintSorted` before the fix: no `Compact`; also `LogSelectedNodes` (sorted labels of the
+    selected nodes of the node map) -/
+def printSortedOld (g : BuildGraph) (idx : List Nat) : List Bytes :=
+  (labelStrings g idx).mergeSort bytesLe
 
 /-- `Selector.Match`: filters and platform -/
 def BuildGraph.matchAt (g : BuildGraph) (s : Selector) (h : Host) (i : Nat) : Bool :=
@@ -55,7 +64,7 @@ def rdepsCmd (g : BuildGraph) (s : Selector) (h : Host) (transitive : Bool) (t :
 
 /-- `grog list <patterns>`: `SelectTargets` then `LogSelectedNodes` -/
 def listCmd (g : BuildGraph) (s : Selector) (h : Host) : List Bytes :=
-  printSorted g (selectForQuery g s h)
+  printSortedOld g (selectForQuery g s h)
 
 /-- workspace-relative path of an input of a target in package `pkg`
     (`filepath.Join(pkg, input)` for cleaned relative `input`) -/
